@@ -511,10 +511,14 @@ Definition measure (st : state) : nat :=
 
 (* The checker works on states whose ghost history of pushed frames is erased: the history
    influences no step, but it records the order of pushes, which would keep apart hidden
-   states that can never be told apart again. *)
+   states that can never be told apart again. The same holds for what is left in the relay
+   inlet once the database is closed. *)
 Definition erase (st : state) : state :=
   State (st_unowned st) (st_deadinlet st) (st_chans st) (st_cap st) (st_writers st) (st_bg st) (st_npos st)
-        (st_fifo st) (st_strs st) (st_closed st) [].
+        (* once the DB is closed (and writers no longer push into the dead inlet) the
+           content of the inlet is never looked at again *)
+        (if st_closed st && negb (st_deadinlet st) then [] else st_fifo st)
+        (st_strs st) (st_closed st) [].
 Definition hsucc_e (st : state) : list state := map erase (hsucc st).
 Definition vstep_e (st : state) (o : op) : list state := map erase (vstep st o).
 
